@@ -23,6 +23,8 @@ pub struct Worker {
     pub nshards: u64,
     pub resume_after: i64,
     pub describe: Option<u64>,
+    /// run exactly this case (the supervisor's second opinion on a suspected hang)
+    pub only: Option<u64>,
     prog: *mut u64,
     proto: File,
     pub cap: crate::capture::Capture,
@@ -49,6 +51,7 @@ impl Worker {
         let nshards = g("VH_NSHARDS").and_then(|s| s.parse().ok()).unwrap_or(1);
         let resume_after = g("VH_RESUME_AFTER").and_then(|s| s.parse().ok()).unwrap_or(-1);
         let describe = g("VH_DESCRIBE").and_then(|s| s.parse().ok());
+        let only: Option<u64> = g("VH_ONLY").and_then(|s| s.parse().ok());
         let prog = match g("VH_PROGRESS") {
             Some(p) => unsafe {
                 let f = OpenOptions::new().read(true).write(true).open(&p).expect("open progress file");
@@ -63,12 +66,15 @@ impl Worker {
         // Panics of the subject are caught and reported as records; keep
         // stderr quiet.
         std::panic::set_hook(Box::new(|_| {}));
-        Worker { shard, nshards, resume_after, describe, prog, proto, cap, stats: BTreeMap::new(), sets: BTreeMap::new(), last_stats: Instant::now() }
+        Worker { shard, nshards, resume_after, describe, only, prog, proto, cap, stats: BTreeMap::new(), sets: BTreeMap::new(), last_stats: Instant::now() }
     }
 
     pub fn mine(&self, idx: u64) -> bool {
         if let Some(d) = self.describe {
             return idx == d;
+        }
+        if let Some(o) = self.only {
+            return idx == o;
         }
         idx % self.nshards == self.shard && (idx as i64) > self.resume_after
     }
@@ -285,6 +291,43 @@ fn cpu_seconds(pid: u32) -> f64 {
     (ut + st) / 100.0
 }
 
+/// Run one case on its own in a fresh worker.  Some(protocol lines) if it finished; None if it
+/// again used more than twice the CPU limit or ten times the wall limit (or died).
+fn rerun_alone(args: &[String], idx: u64, case_timeout: Duration, dir: &std::path::Path, extra_env: &[(String, String)]) -> Option<Vec<String>> {
+    let exe = std::env::current_exe().unwrap();
+    let out_path = dir.join(format!("rerun-{}.out", idx));
+    let f = File::create(&out_path).ok()?;
+    let mut cmd = Command::new(exe);
+    cmd.args(args).env("VH_WORKER", "1").env("VH_ONLY", idx.to_string()).env("VH_SCRATCH_RUN", dir).env_remove("VH_PROGRESS").stdin(Stdio::null()).stdout(Stdio::from(f)).stderr(Stdio::null());
+    for (k, v) in extra_env {
+        cmd.env(k, v);
+    }
+    let mut child = cmd.spawn().ok()?;
+    let start = Instant::now();
+    // enumeration up to the case costs CPU too: measure from the moment it is reached is not
+    // possible without a progress file, so the CPU budget is generous (limit x2 + enumeration)
+    let cpu_cap = case_timeout.as_secs_f64() * 2.0 + 120.0;
+    let ok = loop {
+        match child.try_wait() {
+            Ok(Some(st)) => break st.success(),
+            Ok(None) => {}
+            Err(_) => break false,
+        }
+        if cpu_seconds(child.id()) > cpu_cap || start.elapsed() > case_timeout * 10 + Duration::from_secs(600) {
+            let _ = child.kill();
+            let _ = child.wait();
+            break false;
+        }
+        std::thread::sleep(Duration::from_millis(50));
+    };
+    let text = std::fs::read_to_string(&out_path).unwrap_or_default();
+    let _ = std::fs::remove_file(&out_path);
+    if !ok || !text.lines().any(|l| l.contains("\"t\":\"done\"")) {
+        return None;
+    }
+    Some(text.lines().map(|l| l.to_string()).collect())
+}
+
 fn describe(args: &[String], idx: u64, extra_env: &[(String, String)]) -> Value {
     let exe = std::env::current_exe().unwrap();
     let mut cmd = Command::new(exe);
@@ -377,6 +420,34 @@ pub fn run_sharded(args: &[String], nshards: usize, case_timeout: Duration, wall
                     continue;
                 }
                 let kind = if detail.starts_with("HANG") { "hang" } else { "crash" };
+                // A suspected hang is only believed if the case, run again on its own in a fresh
+                // process, again fails to finish (twice the CPU limit, or ten times the wall limit):
+                // on an overloaded machine a worker can lose its time slice for longer than any
+                // fixed limit, and that is not a property of the code under test.
+                if kind == "hang" {
+                    if let Some(lines) = rerun_alone(args, case_now, case_timeout, &dir, extra_env) {
+                        for l in lines {
+                            match serde_json::from_str::<Value>(&l) {
+                                Ok(v) => match v["t"].as_str() {
+                                    Some("stats") => {
+                                        if let Some(o) = v["c"].as_object() {
+                                            for (k, n) in o {
+                                                *out.stats.entry(k.clone()).or_insert(0) += n.as_u64().unwrap_or(0);
+                                            }
+                                        }
+                                    }
+                                    Some("done") => {}
+                                    _ => out.records.push(v),
+                                },
+                                Err(_) => {}
+                            }
+                        }
+                        *out.stats.entry("supervisor.hang_suspects_cleared_by_rerun".into()).or_insert(0) += 1;
+                        let _ = std::fs::remove_file(&slot.prog_path);
+                        *slot = spawn(args, si, nshards, case_now as i64, &dir, extra_env);
+                        continue;
+                    }
+                }
                 let description = describe(args, case_now, extra_env);
                 out.crashes.push(Crash { shard: si, case: case_now, kind: kind.into(), detail, description });
                 if out.crashes.len() >= max_crashes {
